@@ -258,6 +258,13 @@ pub struct Wsdl {
     pub binding: Name,
     pub service: Name,
     pub address: String,
+    /// target namespace of the WSDL itself when it differs from that of its inline schema
+    #[serde(default)]
+    pub own_ns: Option<String>,
+    /// files rendered as further schemas inside wsdl:types instead of as sibling files (imported by
+    /// the start file only, without a schemaLocation)
+    #[serde(default)]
+    pub inline: Vec<usize>,
 }
 
 #[derive(Clone, Debug, PartialEq, Eq, Serialize, Deserialize)]
@@ -503,6 +510,11 @@ fn schema_element(m: &Model, f: usize, ind: usize, with_xmlns: bool) -> String {
     r.line(ind, &format!("<{xs}:schema{decl} targetNamespace=\"{}\" elementFormDefault=\"qualified\">", esc_attr(&file.ns)));
     for imp in &file.imports {
         let i = &m.files[*imp];
+        if m.wsdl.as_ref().is_some_and(|w| w.inline.contains(imp)) {
+            // the namespace lives in another schema of the same wsdl:types
+            r.line(ind + 1, &format!("<{xs}:import namespace=\"{}\"/>", esc_attr(&i.ns)));
+            continue;
+        }
         r.line(ind + 1, &format!("<{xs}:import namespace=\"{}\" schemaLocation=\"{}\"/>", esc_attr(&i.ns), esc_attr(&i.name)));
     }
     for c in &file.comps {
@@ -525,10 +537,21 @@ pub fn render_wsdl(m: &Model, f: usize, w: &Wsdl) -> String {
     if file.own_prefix.is_empty() {
         decl += &format!(" xmlns:tns=\"{}\"", esc_attr(&file.ns));
     }
+    // the WSDL's own components (messages, port type, binding) are referred to through wp
+    let wp = if w.own_ns.is_some() { "wns".to_string() } else { tp.clone() };
+    if let Some(own) = &w.own_ns {
+        decl += &format!(" xmlns:wns=\"{}\"", esc_attr(own));
+    }
     s += &format!(
         "<wsdl:definitions xmlns:wsdl=\"http://schemas.xmlsoap.org/wsdl/\" xmlns:soap=\"http://schemas.xmlsoap.org/wsdl/soap/\"{decl} targetNamespace=\"{}\">\n  <wsdl:types>\n",
-        esc_attr(&file.ns)
+        esc_attr(w.own_ns.as_deref().unwrap_or(&file.ns))
     );
+    // further schemas of other namespaces first (what they declare is referred to by the main one)
+    let mut inline = w.inline.clone();
+    inline.sort_unstable_by(|a, b| b.cmp(a));
+    for j in inline {
+        s += &schema_element(m, j, 2, false);
+    }
     s += &schema_element(m, f, 2, false);
     s += "  </wsdl:types>\n";
     for msg in &w.messages {
@@ -546,14 +569,14 @@ pub fn render_wsdl(m: &Model, f: usize, w: &Wsdl) -> String {
     s += &format!("  <wsdl:portType name=\"{}\">\n", esc_attr(&w.port_type.xml()));
     for op in &w.operations {
         s += &format!("    <wsdl:operation name=\"{}\">\n", esc_attr(&op.name.xml()));
-        s += &format!("      <wsdl:input message=\"{tp}:{}\"/>\n", esc_attr(&w.messages[op.input.message].name.xml()));
+        s += &format!("      <wsdl:input message=\"{wp}:{}\"/>\n", esc_attr(&w.messages[op.input.message].name.xml()));
         if let Some(o) = &op.output {
-            s += &format!("      <wsdl:output message=\"{tp}:{}\"/>\n", esc_attr(&w.messages[o.message].name.xml()));
+            s += &format!("      <wsdl:output message=\"{wp}:{}\"/>\n", esc_attr(&w.messages[o.message].name.xml()));
         }
         s += "    </wsdl:operation>\n";
     }
     s += "  </wsdl:portType>\n";
-    s += &format!("  <wsdl:binding name=\"{}\" type=\"{tp}:{}\">\n", esc_attr(&w.binding.xml()), esc_attr(&w.port_type.xml()));
+    s += &format!("  <wsdl:binding name=\"{}\" type=\"{wp}:{}\">\n", esc_attr(&w.binding.xml()), esc_attr(&w.port_type.xml()));
     s += "    <soap:binding style=\"document\" transport=\"http://schemas.xmlsoap.org/soap/http\"/>\n";
     for op in &w.operations {
         s += &format!("    <wsdl:operation name=\"{}\">\n", esc_attr(&op.name.xml()));
@@ -565,7 +588,7 @@ pub fn render_wsdl(m: &Model, f: usize, w: &Wsdl) -> String {
             let msg = &w.messages[d.message];
             let mut t = format!("      <wsdl:{tag}>\n");
             for h in &d.headers {
-                t += &format!("        <soap:header message=\"{tp}:{}\" part=\"{}\" use=\"literal\"/>\n", esc_attr(&msg.name.xml()), esc_attr(&msg.parts[*h].name.xml()));
+                t += &format!("        <soap:header message=\"{wp}:{}\" part=\"{}\" use=\"literal\"/>\n", esc_attr(&msg.name.xml()), esc_attr(&msg.parts[*h].name.xml()));
             }
             if d.body_named {
                 t += &format!("        <soap:body use=\"literal\" parts=\"{}\"/>\n", esc_attr(&msg.parts[d.body_part].name.xml()));
@@ -583,7 +606,7 @@ pub fn render_wsdl(m: &Model, f: usize, w: &Wsdl) -> String {
     }
     s += "  </wsdl:binding>\n";
     s += &format!(
-        "  <wsdl:service name=\"{}\">\n    <wsdl:port name=\"{}Port\" binding=\"{tp}:{}\">\n      <soap:address location=\"{}\"/>\n    </wsdl:port>\n  </wsdl:service>\n</wsdl:definitions>\n",
+        "  <wsdl:service name=\"{}\">\n    <wsdl:port name=\"{}Port\" binding=\"{wp}:{}\">\n      <soap:address location=\"{}\"/>\n    </wsdl:port>\n  </wsdl:service>\n</wsdl:definitions>\n",
         esc_attr(&w.service.xml()),
         esc_attr(&w.service.xml()),
         esc_attr(&w.binding.xml()),
@@ -595,6 +618,9 @@ pub fn render_wsdl(m: &Model, f: usize, w: &Wsdl) -> String {
 pub fn render(m: &Model) -> FileSet {
     let mut files = vec![];
     for (i, f) in m.files.iter().enumerate() {
+        if m.wsdl.as_ref().is_some_and(|w| w.inline.contains(&i)) {
+            continue;
+        }
         let text = match (&m.wsdl, i == m.start) {
             (Some(w), true) => render_wsdl(m, i, w),
             _ => render_xsd(m, i),
